@@ -29,6 +29,7 @@ def check(run):
     # random sign/verify histories with 6 keys judged by Trace_Verify (library's signer output must be in Signers)
     traces_verify.library_signed_traces(run, n=400 if quick else 8000,
                                         owner=lambda o: True)
+    traces_verify.library_signed_big(run, n=6 if quick else 60, owner=lambda o: True)
 
 
 def replay(payload):
